@@ -3,6 +3,7 @@ package main
 import (
 	"context"
 	"fmt"
+	"strings"
 	"sync"
 )
 
@@ -61,10 +62,13 @@ func runConc(c Case) interface{} {
 				<-start
 				for k := 0; k < 3; k++ {
 					i := (g + k) % len(jobs)
-					res := eng.Render(context.Background(), fmt.Sprintf("t%d", i), datas[g][k])
+					who := fmt.Sprintf("g%d-%d-r%d", g, k, r)
+					res := eng.Render(context.WithValue(context.Background(), whoKey{}, who), fmt.Sprintf("t%d", i), datas[g][k])
+					// the baseline was rendered without a caller name; this call must see its own
+					want := strings.ReplaceAll(base[i].Out, "who:nobody;", "who:"+who+";")
 					mu.Lock()
 					total++
-					if (res.Class != base[i].Class || res.Out != base[i].Out) && firstDiff == nil {
+					if (res.Class != base[i].Class || res.Out != want) && firstDiff == nil {
 						firstDiff = J{"job": i, "alone": J{"class": base[i].Class, "out": base[i].Out}, "concurrent": J{"class": res.Class, "out": res.Out}}
 					}
 					mu.Unlock()
@@ -97,6 +101,21 @@ func genC08(r *Rng, n int, tier string, emit func(Case)) {
 	}
 	for i := 0; i < n; i++ {
 		rr := r.Fork()
+		if i%15 == 14 {
+			// the module's debug() template function, with and without its allowDeep flag, next to JSON output of other renders
+			var jobs []interface{}
+			for j := 0; j < rr.Range(2, 4); j++ {
+				var call J
+				if rr.Bool() {
+					call = eCall(eId("debug"), eId("o"), eBool(false))
+				} else {
+					call = eCall(eId("debug"), eId("o"))
+				}
+				jobs = append(jobs, J{"doc": []interface{}{nBuf(call, false), nText("|"), nBuf(eCall(eDot(eId("JSON"), "stringify"), eId("o")), false)}, "data": mutData(rr)})
+			}
+			emit(Case{"kind": "conc", "manifest": "", "jobs": jobs, "n": []int{4, 16}[rr.Intn(2)], "rounds": 2, "debug": false, "bucket": "debug-func", "njobs": len(jobs)})
+			continue
+		}
 		k := rr.Range(2, 6)
 		var jobs []interface{}
 		useAsset := false
@@ -115,6 +134,9 @@ func genC08(r *Rng, n int, tier string, emit func(Case)) {
 				}
 				body = append(body, nBuf(eId("v"), true), nText(","))
 				jobs = append(jobs, J{"doc": []interface{}{nEach("v", "", eId("xs"), body...), nEach("w", "", eIdx(eId("nested"), eNum("0")), body...)}, "data": mutData(rr)})
+			} else if rr.Chance(1, 5) {
+				// a context-bound template function: every render has its own context
+				jobs = append(jobs, J{"doc": []interface{}{nText("<"), nBuf(eCall(eId("vpWho")), true), nEach("v", "", eId("xs"), nBuf(eCall(eId("vpWho")), true)), nText(">")}, "data": mutData(rr)})
 			} else if rr.Chance(1, 6) {
 				// a render that fails at run time: the error path reads the engine's template code
 				jobs = append(jobs, J{"doc": []interface{}{nText("before"), nBuf(eCall(eDot(eId("xs"), "join"), eStr("a"), eStr("b")), true)}, "data": mutData(rr)})
